@@ -64,6 +64,24 @@ fn dense_eval_fix<const N: usize, const T: usize>() {
     core::mem::forget((m, pv));
     assert!(ok);
 }
+fn dense_arith1<const N: usize, const T: usize, const OP: u8>() {
+    let ((ta, a), (tb, b)) = (dense::<T>(N), dense::<T>(N));
+    let (p, pv) = point::<N>();
+    let s = anyv();
+    assume(s != 0);
+    let (ea, eb) = (mle_eval(&ta, &p, N), mle_eval(&tb, &p, N));
+    let (r, want) = match OP {
+        0 => (&a + &b, (ea + eb) % P),
+        1 => (&a - &b, (ea + P - eb) % P),
+        2 => (-a.clone(), (P - ea) % P),
+        3 => (&a * &F::enc(s), (s * ea) % P),
+        _ => { let mut t = a.clone(); t += (F::enc(s), &b); (t, (ea + s * eb) % P) },
+    };
+    crate::cover!(ea != 0 && eb != 0 && s > 1);
+    let ok = r.evaluate(&pv).val() == want && r.num_vars() == N;
+    core::mem::forget((a, b, r, pv));
+    assert!(ok);
+}
 fn dense_arith<const N: usize, const T: usize>() {
     let ((ta, a), (tb, b)) = (dense::<T>(N), dense::<T>(N));
     let (p, pv) = point::<N>();
@@ -162,19 +180,34 @@ fn mv_poly() {
 
 crate::harnesses! { REG;
     /// quick required | dense MLE, 2 variables: evaluate at ALL points (Boolean and non-Boolean) for ALL tables == sum over the hypercube of table[b]*eq(b, r); fix_variables for every prefix length then evaluate == evaluate(full point)
-    #[unwind(8)]
+    #[unwind(10)]
     fn c17_dense_eval_fix_2() { dense_eval_fix::<2, 4>() }
-    /// quick required | dense MLE, 0 and 1 variables: evaluate / fix_variables, ALL tables and points
-    #[unwind(8)]
-    fn c17_dense_eval_fix_01() { dense_eval_fix::<0, 1>(); dense_eval_fix::<1, 2>() }
+    /// quick required | dense MLE, 1 variable: evaluate / fix_variables, ALL tables and points
+    #[unwind(10)]
+    fn c17_dense_eval_fix_1() { dense_eval_fix::<1, 2>() }
+    /// thorough attempt timeout=3000 mem=30 | dense MLE, 0 variables (constant): evaluate / fix_variables
+    #[unwind(10)]
+    fn c17_dense_eval_fix_0() { dense_eval_fix::<0, 1>() }
     /// thorough required timeout=3000 | dense MLE, 3 variables: evaluate / fix_variables, ALL tables and points
     #[unwind(12)]
     fn c17_dense_eval_fix_3() { dense_eval_fix::<3, 8>() }
-    /// quick required | dense MLE arithmetic (+, -, neg, scalar *, scaled +=) on 2 variables: pointwise on ALL tables, scalars and points
-    #[unwind(8)]
+    /// quick required | dense MLE `&a + &b` on 2 variables: pointwise on ALL tables and points
+    #[unwind(10)]
+    fn c17_dense_add_2() { dense_arith1::<2, 4, 0>() }
+    /// quick required | dense MLE `&a - &b` on 2 variables: pointwise on ALL tables and points
+    #[unwind(10)]
+    fn c17_dense_sub_2() { dense_arith1::<2, 4, 1>() }
+    /// quick required | dense MLE neg and scalar * (non-zero scalar) on 2 variables: ALL tables, scalars, points
+    #[unwind(10)]
+    fn c17_dense_neg_scale_2() { dense_arith1::<2, 4, 2>(); dense_arith1::<2, 4, 3>() }
+    /// quick required | dense MLE scaled add `a += (s, &b)` on 2 variables: ALL tables, scalars, points
+    #[unwind(10)]
+    fn c17_dense_scaled_add_2() { dense_arith1::<2, 4, 4>() }
+    /// thorough attempt timeout=3000 mem=30 | dense MLE arithmetic, all five operators in one harness, 2 variables
+    #[unwind(10)]
     fn c17_dense_arith_2() { dense_arith::<2, 4>() }
     /// quick finding | KNOWN FINDING region: dense MLE on 2 variables scaled by the scalar 0, then evaluated at a 2-variable point (the product collapses to the 0-variable constant zero and evaluate() asserts on the point length)
-    #[unwind(8)]
+    #[unwind(10)]
     fn c17_scale_by_zero_finding() {
         let (_t, a) = dense::<4>(2);
         let (_p, pv) = point::<2>();
@@ -185,13 +218,13 @@ crate::harnesses! { REG;
         assert!(ok);
     }
     /// quick required | dense MLE relabel(a, b, k) on 2 variables for ALL admissible windows: equals evaluation at the point with the windows swapped
-    #[unwind(8)]
+    #[unwind(10)]
     fn c17_dense_relabel_2() { dense_relabel::<2, 4>() }
     /// thorough required timeout=3000 | dense MLE relabel on 3 variables, ALL admissible (a, b, k)
     #[unwind(12)]
     fn c17_dense_relabel_3() { dense_relabel::<3, 8>() }
     /// quick required | DenseMultilinearExtension::concat of equal-size and unequal-size tables (zero padding): evaluation of the concatenated table
-    #[unwind(8)]
+    #[unwind(10)]
     fn c17_dense_concat() { dense_concat() }
     /// thorough attempt timeout=3000 mem=30 | sparse MLE (2 variables; concrete index sets {0,3}, {1,2}, {2,2}; symbolic values) agrees with the dense MLE of the same table at ALL points
     #[unwind(12)]
